@@ -145,19 +145,18 @@ impl<'a, O: Iterator<Item = Box<dyn Iterator<Item = DltMessage> + 'a>>> Iterator
 {
     type Item = DltMessage;
     fn next(&mut self) -> Option<Self::Item> {
-        if let Some(cur_it) = self.cur_it.as_mut() {
+        // loop (and not a recursion) as there can be many empty iterators
+        while let Some(cur_it) = self.cur_it.as_mut() {
             let m = cur_it.next();
             if let Some(mut msg) = m {
                 msg.index = self.index;
                 self.index += 1;
-                Some(msg)
+                return Some(msg);
             } else {
                 self.cur_it = self.its.next();
-                self.next()
             }
-        } else {
-            None
         }
+        None
     }
 }
 
